@@ -20,6 +20,9 @@ _lib.gc_min.restype = ctypes.c_size_t; _lib.gc_min.argtypes = [ctypes.c_void_p]
 _lib.gc_max.restype = ctypes.c_size_t; _lib.gc_max.argtypes = [ctypes.c_void_p]
 
 GUARD = None
+if os.environ.get('VERIF_NATIVE_GUARD'):
+    # a process-specific pattern behind every buffer: cuts that depend on memory behind the data differ from process to process
+    GUARD = os.urandom(7)
 GUARD_LEN = 64
 CALLS = 0          # number of next_cut calls (harness statistics)
 
